@@ -10,6 +10,8 @@ C31 checker.  A configuration is written as `-` (all fields zero) or
 Ops (all on the real `agent.MergeConfig` / `agent.ReadConfigPaths`):
   `merge A B`        → `<MergeConfig(A,B)> <ok|a-mutated|b-mutated|ab-mutated>` (inputs compared with deep copies)
   `assoc A B C`      → `<merge(merge(A,B),C)> <merge(A,merge(B,C))>`
+  `reuse BASE B C`   → `<r1 = merge(BASE,B), read after the second call> <r2 = merge(BASE,C)> <ok|result-changed|input-storage-written|…+…>`
+                       (the executor rebuilds BASE's lists with cap > len and compares their whole backing arrays)
   `read <path>…`     → `<result>` | `error`; path = `m` missing, `f:<cfg>` file, `f!` undecodable file,
                        `d:<hexname>~<j|b|s>~<cfg>|…` directory (j: file, b: undecodable file, s: sub-directory)
 
@@ -112,6 +114,24 @@ def modelMerge (a b : Config) : String :=
   showCfg table v ++ " " ++ (match ma, mb with
     | false, false => "ok" | true, false => "a-mutated" | false, true => "b-mutated" | true, true => "ab-mutated")
 
+/-- model of op `reuse`, entirely on the heap view: the same base is merged with `b`, then with
+`c`; the first result is read again AFTER the second call, and every input is re-read. -/
+def modelReuse (base b c : Config) : String :=
+  let (h0, rbase) := toRef table [] base
+  let (h1, rb) := toRef table h0 b
+  let (h2, rc) := toRef table h1 c
+  let (h3, r1) := mergeH table h2 rbase rb
+  let (h4, r2) := mergeH table h3 rbase rc
+  let changed := deref table h4 r1 != deref table h3 r1
+  let written := deref table h4 rbase != deref table h2 rbase || deref table h4 rb != deref table h2 rb ||
+    deref table h4 rc != deref table h2 rc
+  let flag := match changed, written with
+    | false, false => "ok"
+    | true, false => "result-changed"
+    | false, true => "input-storage-written"
+    | true, true => "result-changed+input-storage-written"
+  showCfg table (deref table h4 r1) ++ " " ++ showCfg table (deref table h4 r2) ++ " " ++ flag
+
 /-- the documented merge of two sources (fields without a documented rule keep the earlier value) -/
 def specMerge (a b : Config) : Config :=
   table.map fun fs =>
@@ -174,6 +194,24 @@ def step (s : Unit) (op : List String) (impl : String) : LineOut Unit :=
         | _ => some ("malformed", impl)
       { state := s, model := some (modelMerge a b), monitor := mon }
     | _, _ => { state := s, model := some "bad-op" }
+  | ["reuse", sbase, sb, sc] =>
+    match parseCfg table sbase, parseCfg table sb, parseCfg table sc with
+    | some base, some b, some c =>
+      { state := s, model := some (modelReuse base b c), monitor :=
+        match impl.splitOn " " with
+        | [r1s, r2s, flag] =>
+          if flag != "ok" then
+            if (flag.splitOn "+").contains "input-storage-written" then
+              some ("input-storage-written", s!"MergeConfig(base, ·) called twice wrote into storage reachable from its inputs: {flag}")
+            else some ("result-changed-later", s!"the result of MergeConfig(base, b) changed when MergeConfig(base, c) was called: {flag}")
+          else match parseCfg table r1s, parseCfg table r2s with
+            | some r1, some r2 =>
+              match judge "reuse(first)" (specMerge base b) r1 with
+              | some e => some e
+              | none => judge "reuse(second)" (specMerge base c) r2
+            | _, _ => some ("malformed", impl)
+        | _ => some ("malformed", impl) }
+    | _, _, _ => { state := s, model := some "bad-op" }
   | ["assoc", sa, sb, sc] =>
     match parseCfg table sa, parseCfg table sb, parseCfg table sc with
     | some a, some b, some c =>
